@@ -44,6 +44,32 @@ func NewFloat(typ *types.FloatType, x float64) *Float {
 	return &Float{Typ: typ, X: big.NewFloat(x)}
 }
 
+// splitHex splits the hexadecimal digits of a literal after (at most) the first
+// n digits; a missing part is zero.
+func splitHex(hex string, n int) (string, string) {
+	if len(hex) < n {
+		n = len(hex)
+	}
+	part1, part2 := hex[:n], hex[n:]
+	if len(part1) == 0 {
+		part1 = "0"
+	}
+	if len(part2) == 0 {
+		part2 = "0"
+	}
+	return part1, part2
+}
+
+// splitHex128 splits the hexadecimal digits of a 128-bit literal the way LLVM
+// does: with 16 digits or more, the first 16 digits and the rest; a shorter
+// literal is the second part.
+func splitHex128(hex string) (string, string) {
+	if len(hex) < 16 {
+		return "0", hex
+	}
+	return splitHex(hex, 16)
+}
+
 // NewFloatFromString returns a new floating-point constant based on the given
 // floating-point type and floating-point string.
 //
@@ -75,9 +101,9 @@ func NewFloatFromString(typ *types.FloatType, s string) (*Float, error) {
 			// > The 80-bit format used by x86 is represented as 0xK followed by 20
 			// > hexadecimal digits.
 			hex := strings.TrimPrefix(s, "0xK")
-			const hexLen = 8
-			part1 := hex[:hexLen/2]
-			part2 := hex[hexLen/2:]
+			// As LLVM reads it (FP80HexToIntPair): the first (up to) 4 digits are
+			// the sign and exponent, the following (up to) 16 digits the mantissa.
+			part1, part2 := splitHex(hex, 4)
 			se, err := strconv.ParseUint(part1, 16, 16)
 			if err != nil {
 				return nil, errors.WithStack(err)
@@ -96,13 +122,10 @@ func NewFloatFromString(typ *types.FloatType, s string) (*Float, error) {
 			// > The IEEE 128-bit format is represented by 0xL followed by 32
 			// > hexadecimal digits.
 			hex := strings.TrimPrefix(s, "0xL")
-			const maxHexLen = 32
-			if len(hex) < maxHexLen {
-				// pad with leading zeroes (e.g. for case like `0xL01`)
-				hex = strings.Repeat("0", maxHexLen-len(hex)) + hex
-			}
-			part1 := hex[:maxHexLen/2]
-			part2 := hex[maxHexLen/2:]
+			// As LLVM reads it (HexToIntPair): with 16 digits or more, the first 16
+			// digits are the first word and the rest the second word; a shorter
+			// literal is the second word (e.g. `0xL01`).
+			part1, part2 := splitHex128(hex)
 			a, err := strconv.ParseUint(part1, 16, 64)
 			if err != nil {
 				return nil, errors.WithStack(err)
@@ -121,9 +144,7 @@ func NewFloatFromString(typ *types.FloatType, s string) (*Float, error) {
 			// > The 128-bit format used by PowerPC (two adjacent doubles) is
 			// > represented by 0xM followed by 32 hexadecimal digits.
 			hex := strings.TrimPrefix(s, "0xM")
-			const maxHexLen = 32
-			part1 := hex[:maxHexLen/2]
-			part2 := hex[maxHexLen/2:]
+			part1, part2 := splitHex128(hex)
 			a, err := strconv.ParseUint(part1, 16, 64)
 			if err != nil {
 				return nil, errors.WithStack(err)
